@@ -156,3 +156,34 @@ CLAIMS = {'C06': 'Decided: the selection bookkeeping of the moving neighbourhood
 NOTES = {'C06': 'finding on the current tree (replayed natively): C06.g.ieee NeighMoving::_movingSectorDefine returns nsect (one past the last sector) for dx > 0, dy < 0 with '
                 '|dy/dx| below about 4.4e-16, e.g. (dx,dy) = (1,-1e-17): 2*pi - atan(-dy/dx) rounds to 2*pi in IEEE doubles (suspect S8); the value is then used as an index '
                 'into _movingNsect/_movingIsect (size nsect) by _movingSelect. The real-arithmetic reading (C06.g) holds.'}
+
+
+# ---------------------------------------------------------------- C06.i BiTargetCheckDistance::isOK (anisotropic distance test), harness/C06/bidist.cpp
+_BID_TUS = ['src/Geometry/BiTargetCheckDistance.cpp', 'src/Geometry/ABiTargetCheck.cpp', 'src/Geometry/GeometryHelper.cpp', 'src/Core/matrix.cpp',
+            'src/Basic/VectorHelper.cpp', 'src/Basic/Utilities.cpp', 'src/Basic/AStringable.cpp', 'src/Space/SpacePoint.cpp']
+_BID_STUBS = ['the two SpaceTarget objects are raw storage: only _coord (a real VectorDouble of size 2, read by SpacePoint::getCoord) is built']
+for _tag, _entry, _rot, _tiers, _btxt, _stubs in (
+        ('iso', 'k_bidist_iso', 0, ('quick', 'thorough'), 'isotropic checker (no coefficients): radius any half-integer with |radius| <= 128', []),
+        ('ani', 'k_bidist_aniso', 0, ('quick', 'thorough'), 'anisotropy coefficients k/4 with k = 1..16 (0.25 .. 4), no angle given; radius any integer |radius| <= 256', []),
+        ('rot', 'k_bidist_aniso', 1, ('quick', 'thorough'),
+         'anisotropy coefficients k/4 with k = 1..16 (0.25 .. 4), any non-zero rotation angle whose (cos, sin) is ANY pair of reals (in particular every point of the unit circle); radius any integer |radius| <= 256',
+         ['GeometryHelper::rotationGetSinCos -> an arbitrary pair of reals (c, s) (the reference uses the same two numbers)']),
+        ('rot0', 'k_bidist_aniso', 3, ('quick', 'thorough'),
+         'anisotropy coefficients k/4 with k = 1..16 (0.25 .. 4), rotation angle 0 given explicitly (no rotation applied); radius any integer |radius| <= 256', []),
+        ('rot90', 'k_bidist_aniso', 4, ('quick', 'thorough'),
+         'anisotropy coefficients k/4 with k = 1..16 (0.25 .. 4), rotation angle 90, 180 or 270 degrees (exact cos/sin of GH::rotationGetSinCos); radius any integer |radius| <= 256', []),
+        ('rot35', 'k_bidist_aniso', 2, ('quick', 'thorough'),
+         'anisotropy coefficients k/4 with k = 1..16 (0.25 .. 4), rotation (cos, sin) = (3/5, 4/5) as doubles; radius any integer |radius| <= 256',
+         ['GeometryHelper::rotationGetSinCos -> (3/5, 4/5) whatever the (non-zero) angle'])):
+    K('C06.i.' + _tag, property='C06', engine='symex', harness='C06/bidist.cpp', entry=_entry, tus=_BID_TUS,
+      defines={'all': {'VF_ROT': _rot, 'VF_G': 64}}, tiers=_tiers,
+      bounds={'quick': '2-D; ' + ('target and sample anywhere on the integer grid |v| <= 64; ' if _tag == 'iso' else 'sample on the integer grid |v| <= 64, target = sample + integer increment |d| <= 128 per axis; ') + _btxt},
+      timeout_ms={'quick': 120000, 'thorough': 600000}, validate={'quick': 120, 'thorough': 240}, validate_doubles='int',
+      what='BiTargetCheckDistance(radius, coeffs, angles) constructor (with GH::rotationMatrixInPlace / rotation2DMatrixInPlace / rotationGetSinCos, VH::isConstant), '
+           'BiTargetCheckDistance::isOK, _calculateDistance, matrix_product_safe, SpacePoint::getCoord: the pair is accepted iff radius >= 0 and '
+           'sum_d ((increment component along the d-th rotated axis) / coeff_d)^2 <= radius^2 (the ellipse GH::getEllipse draws for the same parameters); '
+           'isotropic case: squared Euclidean distance <= radius^2, getIncr == target - sample',
+      out='rounding of the products, the division, the sum and the square root (real-arithmetic reading); 3-D rotations; undefined (TEST) radius or coordinates; '
+          'that (cos, sin) is a point of the unit circle (libm)',
+      assumptions=['real-arithmetic reading: sqrt is the exact non-negative root'],
+      stubs=_BID_STUBS + _stubs)
